@@ -8,6 +8,7 @@
  *          leaf-swapped      peer presents ANOTHER valid leaf of the same CA, keeps its own key
  *          enc-key-mismatch  TLCP server: decryption key does not belong to the encryption certificate
  *          enc-cert-other-ca TLCP server: encryption certificate issued by a different CA than the signing one
+ *          cert-other-sigalg leaf whose two signatureAlgorithm fields name an algorithm the library does not verify
  *          no-cert           client has no certificate although the server asks for one
  *          empty-cert        TLCP / TLS 1.2: the client's Certificate message carries an empty list (built by a
  *                            link-time interposer in the client thread, transcripts stay consistent);
@@ -39,7 +40,8 @@ static pki_t *get_pki(void) {
 }
 
 static void handle(size_t nw, char **w) {
-	if (!strcmp(w[0], "auth") && nw == 5) {
+	if (!strcmp(w[0], "auth") && (nw == 5 || nw == 6)) {
+		int force_mutual = nw == 6 && atoi(w[5]);   /* client-verifies-server rows with client authentication switched on as well */
 		int protocol = proto_of(w[1]); int verifier_is_client = !strcmp(w[2], "client"); const char *df = w[3];
 		uint64_t seed = strtoull(w[4], NULL, 10);
 		pki_t *k = get_pki(); session_t *S;
@@ -61,7 +63,7 @@ static void handle(size_t nw, char **w) {
 		else if (!strcmp(df, "leaf-swapped")) { if (verifier_is_client) sleaf = &alt_leaf_s; else cleaf = &alt_leaf_c; }   /* keys stay those of the original leaves */
 		else if (!strcmp(df, "enc-key-mismatch")) { sekey = &k->csign.key; }
 		else if (!strcmp(df, "enc-cert-other-ca")) { sencleaf = &senc_b; sekey = &senc_b.key; }
-		else if (!strcmp(df, "bad-cert-sig") || !strcmp(df, "no-cert") || !strcmp(df, "empty-cert")) { }
+		else if (!strcmp(df, "bad-cert-sig") || !strcmp(df, "no-cert") || !strcmp(df, "empty-cert") || !strcmp(df, "cert-other-sigalg")) { }
 		else { printf("ERR bad-defect"); free(S); return; }
 
 		if (!strcmp(df, "untrusted-root")) {
@@ -75,13 +77,23 @@ static void handle(size_t nw, char **w) {
 			chain_build(&schain, &schainlen, k, sleaf, tlcp ? sencleaf : NULL);
 			chain_build(&cchain, &cchainlen, k, cleaf, NULL);
 		}
+		if (!strcmp(df, "cert-other-sigalg")) {
+			/* a forged leaf: both signature-algorithm fields say ecdsa-with-sha256 instead of sm2sign-with-sm3
+			 * (same encoded length), so the SM2 signature no longer covers the TBS bytes; a verifier that
+			 * skips algorithms it does not implement would accept it */
+			static const uint8_t sm2oid[10] = { 0x06, 0x08, 0x2A, 0x81, 0x1C, 0xCF, 0x55, 0x01, 0x83, 0x75 };
+			static const uint8_t ecoid[10] = { 0x06, 0x08, 0x2A, 0x86, 0x48, 0xCE, 0x3D, 0x04, 0x03, 0x02 };
+			uint8_t *c = verifier_is_client ? schain : cchain; size_t n = verifier_is_client ? sleaf->len : cleaf->len, i; int hits = 0;
+			for (i = 0; i + 10 <= n; i++) if (!memcmp(c + i, sm2oid, 10)) { memcpy(c + i, ecoid, 10); hits++; }
+			if (hits != 2) { printf("ERR forge"); free(schain); free(cchain); free(S); return; }
+		}
 		if (!strcmp(df, "bad-cert-sig")) {
 			/* flip one bit in the signature value at the end of the leaf certificate */
 			if (verifier_is_client) schain[sleaf->len - 5] ^= 0x10; else cchain[cleaf->len - 5] ^= 0x10;
 		}
 		{
 			int client_has_cert = !(!verifier_is_client && !strcmp(df, "no-cert"));
-			int mutual = !verifier_is_client;      /* server verifies => client authentication on */
+			int mutual = !verifier_is_client || force_mutual;      /* server verifies => client authentication on */
 			if (ep_setup(&S->s, protocol, 0, schain, schainlen, skey, tlcp ? sekey : NULL,
 					mutual ? k->root.der : NULL, mutual ? k->root.len : 0) != 1
 				|| ep_setup(&S->c, protocol, 1, (mutual && client_has_cert) ? cchain : NULL, (mutual && client_has_cert) ? cchainlen : 0,
